@@ -193,6 +193,15 @@ func c15Insert(c *engine.Ctx, in []byte, args map[string]string) {
 	switch args["lang"] {
 	case "js":
 		_, err = js.Parse(parse.NewInputBytes(buf), js.Options{})
+	case "jslex":
+		// the lexer on its own: the first error token must carry the position of the inserted character
+		l := js.NewLexer(parse.NewInputBytes(buf))
+		for i := 0; i < 4*len(t)+8; i++ {
+			if tt, _ := l.Next(); tt == js.ErrorToken {
+				err = l.Err()
+				break
+			}
+		}
 	case "json":
 		p := json.NewParser(parse.NewInputBytes(buf))
 		for i := 0; i < 4*len(t)+8; i++ {
@@ -228,6 +237,7 @@ func c15Generic(space string) engine.RunFunc {
 		n := len(in)
 		t := append([]byte{}, in...)
 		buf := append(make([]byte, 0, n+1), in...)
+		winLo, winHi := -1, -1
 		check := func(pe *parse.Error, knownOff int) {
 			c.Count("errors-seen", 1)
 			if knownOff >= 0 {
@@ -242,11 +252,19 @@ func c15Generic(space string) engine.RunFunc {
 				}
 				return
 			}
-			for o := 0; o <= n; o++ {
+			lo, hi := 0, n
+			if winLo >= 0 {
+				lo, hi = winLo, winHi
+			}
+			for o := lo; o <= hi && o <= n; o++ {
 				l, col, ctx := parse.Position(bytes.NewReader(t), o)
 				if pe.Line == l && pe.Column == col && pe.Context == ctx {
 					return
 				}
+			}
+			if winLo >= 0 {
+				c.Fail("error-outside-consumed-window", fmt.Sprintf("%s on %q: error (%d,%d,%q) %q does not lie in the bytes [%d,%d] the parser worked on during the failing call and the one before", space, t, pe.Line, pe.Column, pe.Context, pe.Message, winLo, winHi))
+				return
 			}
 			c.Fail("error-outside-input", fmt.Sprintf("%s on %q: error (%d,%d,%q) %q matches no offset inside the input", space, t, pe.Line, pe.Column, pe.Context, pe.Message))
 		}
@@ -262,10 +280,12 @@ func c15Generic(space string) engine.RunFunc {
 		// xml, html and json report the error with the cursor resting on the offending byte; the JS lexer moves on
 		// (templates, skipped rune), so for it only the existential form is checked
 		isLexer := space == "xml-lex" || space == "html-lex" || space == "json-parse"
+		prevBefore := 0
 		for i := 0; i < 4*n+8; i++ {
 			before := s.off()
 			tt, data := s.next()
 			if tt != 0 {
+				prevBefore = before
 				continue
 			}
 			err := s.err()
@@ -278,8 +298,14 @@ func c15Generic(space string) engine.RunFunc {
 				ko = s.off()
 				_, _ = before, data
 			}
+			if space == "css-parse" {
+				// the css parser goes on after an error (one token of look-ahead): every error must lie in what the
+				// failing call and the call before it consumed
+				winLo, winHi = prevBefore, s.off()
+			}
 			check(pe, ko)
-			if space != "js-lex" {
+			prevBefore = before
+			if space != "js-lex" && space != "css-parse" {
 				break
 			}
 		}
@@ -433,7 +459,8 @@ func c15Work(c *engine.Ctx) {
 					continue
 				}
 				c.Exec(isp, []byte(mut), map[string]string{"lang": "js", "off": strconv.Itoa(b)})
-				c.Count("exec", 1)
+				c.Exec(isp, []byte(mut), map[string]string{"lang": "jslex", "off": strconv.Itoa(b)})
+				c.Count("exec", 2)
 				c.Count("insertions", 1)
 			}
 		}
